@@ -14,21 +14,21 @@ DEFAULTS = {"a": 0x11, "b": 0x22, "c": 0x33, "sa": 0x44, "sb": 0x55, "s": 0x1066
 ARR2 = {"arr": [0, 255, 1, 127, 129, 2, 254, 77], "sarr": [0xFFFF, 0, 0x7FFF, 0x8001]}
 
 
-def gen_programs(fams, name="gen"):
+def gen_programs(fams, name="gen", which="ALL"):
     """Run the generator spec (all families in one TLC run, cached by the hash of the spec);
-    returns list of {fam, body} for the requested families."""
+    returns list of {fam, body} for the requested families.  which="RW": the rewrite pairs of C15."""
     import hashlib
     h = hashlib.sha1(open(os.path.join(common.SPEC, "GenProg.tla"), "rb").read()).hexdigest()[:16]
     cdir = os.path.join(common.WORK, "cache")
     os.makedirs(cdir, exist_ok=True)
-    cpath = os.path.join(cdir, "genprog_%s.json" % h)
+    cpath = os.path.join(cdir, "genprog_%s_%s.json" % (which, h))
     if os.path.exists(cpath):
         progs = json.load(open(cpath))
     else:
         d = common.workdir("gen_" + name)
         cfg = os.path.join(d, "Gen_ALL.cfg")
         with open(cfg, "w") as f:
-            f.write('CONSTANT Fam = "ALL"\nINIT Init\nNEXT Next\nINVARIANT Emit\nCHECK_DEADLOCK FALSE\n')
+            f.write('CONSTANT Fam = "%s"\nINIT Init\nNEXT Next\nINVARIANT Emit\nCHECK_DEADLOCK FALSE\n' % which)
         res = common.run_tlc("GenProg", cfg=cfg, name="gen_%s" % name, tags={"CASE"}, workers=4, heap="6g")
         common.require_ok(res, "GenProg")
         progs = [o for (_, o) in res.lines]
@@ -60,7 +60,7 @@ def index_vars(body):
 
 
 def make_inputs(case, vt, rnd, maxin, small=False):
-    body = case["body"]
+    body = case.get("in_body") or case.get("body") or []
     reads = set(render.names_in(body))
     for f in vocab.closure(render.calls_in(body)):
         reads |= render.names_in(vocab.FUNCS[f]["body"])
@@ -222,7 +222,7 @@ class Pipeline:
             inputs = make_inputs(c, vt, rnd, maxin, small=c["fam"] in small_fams or c.get("small", False))
             obsn = c.get("obs") or [n for n in vt if n not in ("X", "Y") and (n in vocab.DECL or n in c.get("obs_extra", ())) and not vt[n].get("rom") and not vt[n].get("hidden")]
             maxlen = max(len(v["code"]) for v in uniq)
-            tcases.append(dict(id=c["id"], vt=vt, fs=vocab.fs_for(c.get("fnames", ())), body=c.get("body", []), fuel=fuel, obs=obsn,
+            tcases.append(dict(id=c["id"], vt=vt, fs=vocab.fs_for(c.get("fnames", ())), body=c.get("body") or [], fuel=fuel, obs=obsn,
                                regions=regions, variants=uniq, tmp=link.TMP_ADDR, prefix=bool(c.get("prefix", False)), sem=bool(sem and c.get("body") is not None),
                                pair=bool(pair and len(uniq) > 1), inputs=[dict(inp=i) for i in inputs], _maxlen=maxlen, _src=c["variants"][0]["src"], _fam=c["fam"]))
             if len(self.samples) < 6 and (st["programs"] % 97 == 1):
